@@ -2104,10 +2104,12 @@ def disk_io_counters(perdisk=False, nowrap=True):
     """
     kwargs = dict(perdisk=perdisk) if LINUX else {}
     rawdict = _psplatform.disk_io_counters(**kwargs)
+    if nowrap:
+        # also when no disk is listed, so that the disks which
+        # disappeared start afresh in case they show up again
+        rawdict = _wrap_numbers(rawdict, 'psutil.disk_io_counters')
     if not rawdict:
         return {} if perdisk else None
-    if nowrap:
-        rawdict = _wrap_numbers(rawdict, 'psutil.disk_io_counters')
     nt = getattr(_psplatform, "sdiskio", _common.sdiskio)
     if perdisk:
         for disk, fields in rawdict.items():
@@ -2155,10 +2157,12 @@ def net_io_counters(pernic=False, nowrap=True):
     cache.
     """
     rawdict = _psplatform.net_io_counters()
+    if nowrap:
+        # also when no NIC is listed, so that the NICs which
+        # disappeared start afresh in case they show up again
+        rawdict = _wrap_numbers(rawdict, 'psutil.net_io_counters')
     if not rawdict:
         return {} if pernic else None
-    if nowrap:
-        rawdict = _wrap_numbers(rawdict, 'psutil.net_io_counters')
     if pernic:
         for nic, fields in rawdict.items():
             rawdict[nic] = _common.snetio(*fields)
